@@ -7,6 +7,10 @@ fn probes() -> Vec<(&'static str, PCase)> {
         ("probe:console-log-with-nul", mk("import \"console\" rule nullog { condition: console.log(\"a\\x00b\") }", true)),
         // yrx_scanner_finish on a scanner that has not scanned any block (found by the plumbing sequences; repaired)
         ("probe:finish-without-blocks", PCase { finish_only: true, ..mk("rule f { strings: $a = \"alpha\" condition: $a }", false) }),
+        // a RAW NUL character inside a metadata string (no escape: the parser keeps it a string, not bytes);
+        // a C caller cannot pass such a source, but rules compiled elsewhere arrive through yrx_rules_deserialize.
+        // Used to abort in yrx_rule_iter_metadata (repaired: exposed as YRX_BYTES); regression case
+        ("probe:meta-raw-nul-via-deserialize", PCase { raw_nul_meta: true, ..mk("rule rawnul { meta: s = \"a\u{0}b\" condition: true }", false) }),
         ("probe:plain", mk("rule plain : t1 { meta: a = \"foo\" strings: $a = \"alpha\" condition: $a }", true)),
     ]
 }
